@@ -58,6 +58,11 @@ func (i id) vaaID() vaa.VAAID {
 func mkVAA(i id, ver int) *vaa.VAA {
 	v := &vaa.VAA{Version: 1, GuardianSetIndex: uint32(ver), Timestamp: time.Unix(1700000000, 0), Nonce: uint32(i.Seq), Sequence: i.Seq, ConsistencyLevel: 1,
 		EmitterChain: vaa.ChainID(i.Chain), TargetChain: vaa.ChainID(i.Target), EmitterAddress: addrs[i.Addr], Payload: []byte{byte(i.Chain), byte(i.Target), byte(i.Seq), byte(ver/2 + 1)}} // ver 0/1: same body, other signatures; ver 2: other body
+	if ver == 3 {
+		// a VAA with an EMPTY payload: it can be stored and is returned byte for byte by lookups, but the
+		// decoder refuses it - scans that decode stored values either refuse too or answer correctly
+		v.Payload = nil
+	}
 	s := &vaa.Signature{Index: uint8(ver)}
 	for k := range s.Signature {
 		s.Signature[k] = byte(k*3 + ver + int(i.Seq))
@@ -96,6 +101,12 @@ func check(w *world, content []stored, queryIDs []id, triples []id) {
 	atomic.AddInt64(&contents, 1)
 	ref := map[id][]byte{}
 	var touched []string
+	undecodable := map[[3]int]bool{} // streams that hold a stored value the decoder refuses
+	for _, s := range content {
+		if s.Ver == 3 {
+			undecodable[[3]int{int(s.ID.Chain), s.ID.Addr, int(s.ID.Target)}] = true
+		}
+	}
 	for _, s := range content {
 		v := mkVAA(s.ID, s.Ver)
 		if err := w.d.StoreSignedVAA(v); err != nil {
@@ -172,15 +183,20 @@ func check(w *world, content []stored, queryIDs []id, triples []id) {
 				wantMissing = append(wantMissing, s)
 			}
 		}
+		refusable := undecodable[[3]int{int(t.Chain), t.Addr, int(t.Target)}]
 		miss, _, last, err := w.d.FindEmitterSequenceGap(t.vaaID())
 		if err != nil {
-			viol("gap scan returns an error", err.Error(), content, t)
+			if !refusable {
+				viol("gap scan returns an error", err.Error(), content, t)
+			}
 		} else if !equalU64(miss, wantMissing) || last != max {
 			viol("gap scan of one (emitter chain, emitter, target chain) stream is affected by other streams", fmt.Sprintf("missing=%v last=%d, want missing=%v last=%d", miss, last, wantMissing, max), content, t)
 		}
 		fm, err := w.adm.FindMissingMessages(ctx, &nodev1.FindMissingMessagesRequest{EmitterChain: uint32(t.Chain), EmitterAddress: hexa(t.Addr), TargetChain: uint32(t.Target)})
 		if err != nil {
-			viol("FindMissingMessages returns an error", err.Error(), content, t)
+			if !refusable {
+				viol("FindMissingMessages returns an error", err.Error(), content, t)
+			}
 		} else {
 			var wantStr []string
 			for _, s := range wantMissing {
@@ -323,6 +339,28 @@ func main() {
 			}
 		}
 		all = append(all, []stored{{storable[i], 0}, {storable[i], 1}}, []stored{{storable[i], 1}, {storable[i], 0}}, []stored{{storable[i], 0}, {storable[i], 2}}, []stored{{storable[i], 0}, {storable[i], 1}, {storable[i], 0}})
+	}
+	// stored values the decoder refuses (empty payload) inside gap-scanned streams: at the bottom, in the middle
+	// and at the top of a stream with a gap, alone, and next to another stream
+	for _, st := range [][]id{{{2, 0, 2, 0}, {2, 0, 2, 1}, {2, 0, 2, 2}, {2, 0, 2, 10}}, {{1, 1, 2, 1}, {1, 1, 2, 10}}, {{255, 0, 255, 10}}} {
+		for bad := range st {
+			for mask := 0; mask < 1<<len(st); mask++ {
+				if mask&(1<<bad) == 0 {
+					continue
+				}
+				var c []stored
+				for i, x := range st {
+					if mask&(1<<i) != 0 {
+						ver := 0
+						if i == bad {
+							ver = 3
+						}
+						c = append(c, stored{x, ver})
+					}
+				}
+				all = append(all, c, append([]stored{{id{2, 0, 20, 1}, 0}}, c...))
+			}
+		}
 	}
 	pool := make(chan *world, 16)
 	var once sync.Once
